@@ -151,6 +151,17 @@ def bandVerdicts (args : List String) (res : Option (List String)) : List (Strin
                    | _ => Spec.downlinkPlanFreq cfg.family (Spec.pingSlotChannel a t).toNat
                if r.toNat? == want then [] else [("C12", "ping-slot-frequency-differs-from-region-rule")]
              | _, _, _ => [])
+          | "dridx" =>
+            -- a data-rate looked up by its parameters (in a direction it is defined for) is found, and what is found has these parameters
+            (match ai 0, (rest[1]?).bind String.toNat?, ai 2, ai 3, ai 4, (rest[5]?).bind String.toNat?, ai 6, out with
+             | some u, some m, some sf, some bw, some br, some cr, some ocw, [r] =>
+               let q : DataRate := { uplink := false, downlink := false, modulation := m, sf := sf, bw := bw, bitRate := br, codingRate := cr, ocw := ocw }
+               let matching := (cfg.dataRates.filter fun (_, d) => (if u != 0 then d.uplink else d.downlink) && drParamsEq d q).map (·.1)
+               if r == "ERR" then (if matching.isEmpty then [] else [("C13", "defined-data-rate-not-found-by-its-parameters")])
+               else (match r.toInt? with
+                 | some i => if matching.contains i then [] else [("C13", "data-rate-index-does-not-match-the-parameters")]
+                 | none => [])
+             | _, _, _, _, _, _, _, _ => [])
           | "maxpl" =>
             (match out with
              | [m, n] =>
